@@ -6,7 +6,11 @@ package main
 import (
 	"fmt"
 	"go/types"
+	"os"
+	"path/filepath"
 	"strings"
+	"sync"
+	"time"
 
 	"golang.org/x/tools/go/ssa"
 )
@@ -25,6 +29,71 @@ type FuncResult struct {
 
 // verifyFunc builds the obligations of one function.
 func verifyFunc(prog *Program, cs *ContractSet, full string, c *Contract, kfs []*KnownFinding) (res *FuncResult) {
+	// auto-invariants: Houdini. Candidates are assumed at the loop head and checked at every
+	// back edge; a candidate whose step is not proved is dropped and the function is
+	// regenerated, until every remaining candidate is inductive together with the others.
+	// The surviving candidates are ordinary invariants: their step obligations stay in the
+	// result and are discharged again with the rest.
+	dropped := map[string]bool{}
+	for round := 0; ; round++ {
+		t0 := time.Now()
+		res = verifyFuncOnce(prog, cs, full, c, kfs, dropped)
+		if os.Getenv("WKV_DEBUG_AUTO") != "" {
+			fmt.Fprintf(os.Stderr, "auto: %s round %d gen %dms obls %d dropped %d\n", full, round, time.Since(t0).Milliseconds(), len(res.Obls), len(dropped))
+		}
+		if res.Err != "" || round > 20 {
+			return res
+		}
+		var failed []string
+		var mu sync.Mutex
+		var wg sync.WaitGroup
+		sem := autoSem
+		for _, o := range res.Obls {
+			if o.Auto == "" {
+				continue
+			}
+			o := o
+			wg.Add(1)
+			sem <- struct{}{}
+			go func() {
+				defer wg.Done()
+				defer func() { <-sem }()
+				dir, err := os.MkdirTemp("", "wkv-auto")
+				if err != nil {
+					return
+				}
+				defer os.RemoveAll(dir)
+				r := solve(buildQuery(res.Script, o, false), filepath.Join(dir, "q.smt2"), 5, 0, false)
+				if r.Status != "unsat" {
+					mu.Lock()
+					failed = append(failed, o.Auto)
+					mu.Unlock()
+				}
+			}()
+		}
+		wg.Wait()
+		if os.Getenv("WKV_DEBUG_AUTO") != "" {
+			fmt.Fprintf(os.Stderr, "auto: %s round %d solved in %dms failed %v\n", full, round, time.Since(t0).Milliseconds(), failed)
+		}
+		if len(failed) == 0 {
+			return res
+		}
+		for _, f := range failed {
+			dropped[f] = true
+		}
+	}
+}
+
+// genMu: VC generation is sequential: go/ssa and go/types build some structures lazily and
+// a crash there would be a false alarm; only solver runs are parallel.
+var genMu sync.Mutex
+
+// autoSem bounds the solver processes of all candidate-invariant rounds together.
+var autoSem = make(chan struct{}, 14)
+
+func verifyFuncOnce(prog *Program, cs *ContractSet, full string, c *Contract, kfs []*KnownFinding, dropAuto map[string]bool) (res *FuncResult) {
+	genMu.Lock()
+	defer genMu.Unlock()
 	res = &FuncResult{Key: full, Contract: c}
 	defer func() {
 		if r := recover(); r != nil {
@@ -36,7 +105,7 @@ func verifyFunc(prog *Program, cs *ContractSet, full string, c *Contract, kfs []
 		}
 	}()
 	s := newScript(c.Mode == "bv", c.Strings == "smt")
-	x := &Exec{prog: prog, s: s, cs: cs, maxDepth: 12, kfs: kfs}
+	x := &Exec{prog: prog, s: s, cs: cs, maxDepth: 12, kfs: kfs, dropAuto: dropAuto}
 	res.Script = s
 	if c.Lemma {
 		x.verifyLemma(c, res)
@@ -104,9 +173,22 @@ func (x *Exec) verifyBody(fn *ssa.Function, c *Contract, res *FuncResult) {
 	// vacuity guard: the precondition must be satisfiable
 	x.addObl(&Obligation{Name: funcKey(fn) + "#cover.requires", Kind: "cover", Func: funcKey(fn), Guard: "true", Formula: "true", Cover: true, Src: "requires satisfiable"})
 	results, out := x.execFunc(fr, st)
-	for key := range c.Calls {
+	for _, key := range sortedKeys(c.Calls) {
 		if !fr.seenCalls[key] {
-			panic(contractError(fmt.Sprintf("at-call clause for %s in %s matches no call (contract-shape drift)", key, funcKey(fn))))
+			// the call a clause is about is gone: each of its assert clauses is an obligation
+			// that fails (the other obligations of the function are still reported)
+			cc := c.Calls[key]
+			if len(cc.Asserts) == 0 {
+				panic(contractError(fmt.Sprintf("at-call clause for %s in %s matches no call (contract-shape drift)", key, funcKey(fn))))
+			}
+			for i, a := range cc.Asserts {
+				oname := fmt.Sprintf("%s#at-call.%s.%d", funcKey(fn), key, i+1)
+				if a.Tag != "" {
+					oname = fmt.Sprintf("%s#%s@%s", funcKey(fn), a.Tag, strings.Replace(key, "#", ".", 1))
+				}
+				x.addObl(&Obligation{Name: oname, Kind: "assert", Tag: a.Tag, Func: funcKey(fn), Guard: "true", Formula: "false",
+					Src: a.Src + "  [the function no longer contains the call " + key + " this clause is about (contract-shape drift)]"})
+			}
 		}
 	}
 	for n := range c.Loops {
@@ -123,7 +205,7 @@ func (x *Exec) verifyBody(fn *ssa.Function, c *Contract, res *FuncResult) {
 			// easier - so they are dropped with a note. A tagged (property) loop clause must
 			// not vanish silently.
 			tagged := false
-			for _, inv := range c.Loops[n].Invariants {
+			for _, inv := range append(append([]*Clause{}, c.Loops[n].Invariants...), c.Loops[n].Latch...) {
 				if inv.Tag != "" {
 					tagged = true
 				}
@@ -425,6 +507,22 @@ func (x *Exec) frameObligations(fr *Frame, c *Contract, out *State, env *Env) {
 						exempt[heapKeySlice(t)] = true
 					}
 					continue
+				case "pointee":
+					v := (&oenv).eval(call.Args[0])
+					for _, ta := range call.Args[1:] {
+						t, ok := (&oenv).tryType(ta)
+						if !ok {
+							panic(contractError(fmt.Sprintf("assigns %s: unknown type", a)))
+						}
+						pt := types.NewPointer(t)
+						_, unbox := x.boxFuncs(pt)
+						key := heapKeyObj(t)
+						ref := "(" + unbox + " " + v.S + ")"
+						al := x.heapGet(allowed, key, t)
+						ov := x.heapGet(out, key, t)
+						x.heapSet(allowed, key, t, ite(fmt.Sprintf("(= (itag %s) %d)", v.S, x.typeID(pt)), "(store "+al+" "+ref+" (select "+ov+" "+ref+"))", al))
+					}
+					continue
 				case "all":
 					wholeHavoc = true
 					continue
@@ -464,7 +562,7 @@ func (x *Exec) frameObligations(fr *Frame, c *Contract, out *State, env *Env) {
 			f = "(= " + o + " " + a + ")"
 		} else {
 			// objects allocated during the call are not part of the caller-visible frame
-			f = fmt.Sprintf("(forall ((fr! Int)) (=> (and (>= fr! 0) (<= fr! %s)) (= (select %s fr!) (select %s fr!))))", entry.alloc, o, a)
+			f = fmt.Sprintf("(forall ((fr! Int)) (=> (and (>= fr! 1) (<= fr! %s)) (= (select %s fr!) (select %s fr!))))", entry.alloc, o, a)
 		}
 		x.addObl(&Obligation{Name: fmt.Sprintf("%s#frame.%s", fname, sanitize(shortHeapKey(k))), Kind: "frame", Func: fname, Guard: out.guard, Formula: f,
 			Src: "only the assigns clause's places change in " + shortHeapKey(k)})
